@@ -45,7 +45,9 @@ MANIFEST = {
             'has a gate, one /n_set id gate 0 at + sustain; rests send '
             'nothing. streams: event k of every player at start + sum of the '
             'preceding deltas under Ppar (per-child timelines), Pdur (cut at '
-            'the requested total), Pdelta, Pchain, Pn, Pseq and Pmono.',
+            'the requested total), Pdelta, Pchain, Pn, Pseq and Pmono; the '
+            'schedule must end when the last player has waited its last '
+            'delta (total duration).',
     'note': 'Trusted: vlib/event_ref.py (reference chains and composition '
             'model), vlib/osc_ref.py, vlib/cmdref.py, vlib/scgf.py (control '
             'order of the generated definitions). Tolerated readings and '
@@ -101,6 +103,13 @@ ASSUMPTIONS = [
     'messages of mono synths are ignored.',
     'Exceptions raised inside a playing stream are caught by the clock and '
     'logged; they are read from the sc3.base.clock logger.',
+    'The end of a player is read from the time of the score\'s closing '
+    'marker (last logical time reached by the scheduler, tail 0).',
+    'A mismatch that is exactly what the reference model of a known finding '
+    'predicts (vlib/event_ref.py: leak / trunc flags; checks/c14.py: '
+    'pitch_models, player_stops_after_rest_delta) is reported under that '
+    'model\'s own kind, which is what classify_known keys on; every other '
+    'mismatch keeps the kind of the oracle clause.',
 ]
 
 TWO32 = 2 ** 32
